@@ -69,4 +69,5 @@ int      g_log_level;
 /* free ghosts of the removal path (see contracts.h) */
 bool     g_owned;         /* pre-state: the dialer's current pipe is the pipe being removed */
 bool     g_sole_a, g_sole_b; /* list shape selectors: the pipe is the only member of the socket's / endpoint's list */     /* answer of nng_log_get_level */
+nni_pipe *g_mp1, *g_mp2;     /* member pipes of the endpoint's pipe list (shutdown units) */
 #endif
